@@ -126,6 +126,14 @@ Fixpoint remove_one (d : dfile) (l : list dfile) : list dfile :=
   | x :: t => if dfile_eqb d x then t else x :: remove_one d t
   end.
 
+(** a temp file gets a fresh random name; a -partial file or part record is named after its digest (opening it again
+    does not make a second file) *)
+Definition add_debris (d : dfile) (l : list dfile) : list dfile :=
+  match d with
+  | DTemp => d :: l
+  | _ => if existsb (dfile_eqb d) l then l else d :: l
+  end.
+
 (** ** The store *)
 Record store := MkStore {
   mans : list (name * mstate);   (* manifests/…/…/…/… *)
@@ -174,7 +182,7 @@ Inductive effect :=
 
 Definition apply_effect (s : store) (e : effect) : store :=
   match e with
-  | EAddDebris d => MkStore (mans s) (blobs s) (d :: debris s)
+  | EAddDebris d => MkStore (mans s) (blobs s) (add_debris d (debris s))
   | ERmDebris d => MkStore (mans s) (blobs s) (remove_one d (debris s))
   | ERenTemp h c => MkStore (mans s) (aset N.eqb h c (blobs s)) (remove_one DTemp (debris s))
   | ERenPartial h c => MkStore (mans s) (aset N.eqb h c (blobs s)) (remove_one (DPartial h) (debris s))
